@@ -244,8 +244,27 @@ func ParseSpecFile(fset *token.FileSet, f *ast.File) (*SpecFile, error) {
 			// audit initonly g1, g2, T.f: package-level variables (and struct fields) written by the package
 			// initialiser only - no function of the package stores to them, updates the maps they hold or lets
 			// them escape
+			// audit calls <func or (recv).method> assert [tag] P: P (over arg0, arg1, ... - arg0 is the receiver of a
+			// method) holds at EVERY call of that function anywhere in the package. One obligation per call site.
+			// (`except <function>`: the calls made by that one function are not counted - it forwards its own
+			// arguments and is itself under a calls-audit)
+			if m := regexp.MustCompile(`^calls\s+(\S+)\s+(?:except\s+(\S+)\s+)?assert\s+(.*)$`).FindStringSubmatch(rest); m != nil {
+				cl, err := mkClause(m[3])
+				if err != nil {
+					return nil, err
+				}
+				curAudit = &Audit{Kind: "calls", Callee: m[1], Except: m[2], Assert: cl, Line: d.line, File: sf.Path, Text: rest}
+				sf.Audits = append(sf.Audits, curAudit)
+				cur, curLemma, curMon = nil, nil, nil
+				break
+			}
 			if strings.HasPrefix(rest, "initonly ") {
-				curAudit = &Audit{Kind: "initonly", Names: splitTop(strings.TrimPrefix(rest, "initonly ")), Line: d.line, File: sf.Path, Text: rest}
+				// `initonly names except f1; f2`: the listed functions (separated by `;`) may write as well
+				body, except := strings.TrimPrefix(rest, "initonly "), ""
+				if i := strings.Index(body, " except "); i >= 0 {
+					body, except = body[:i], strings.TrimSpace(body[i+len(" except "):])
+				}
+				curAudit = &Audit{Kind: "initonly", Names: splitTop(body), Except: except, Line: d.line, File: sf.Path, Text: rest}
 				sf.Audits = append(sf.Audits, curAudit)
 				cur, curLemma, curMon = nil, nil, nil
 				break
